@@ -5,6 +5,7 @@ import (
 	"runtime"
 	"sort"
 	"sync"
+	"github.com/deepteams/webp/internal/verifhook"
 )
 
 // VP8L histogram clustering for lossless encoding.
@@ -1259,6 +1260,7 @@ func histogramRemap(origHistos []*Histogram, imageHisto *HistoSet,
 			// Use sentinel 0xFFFF for nil histograms, then fix up serially.
 			const nilSentinel = 0xFFFF
 			numWorkers := runtime.GOMAXPROCS(0)
+			numWorkers = verifhook.Workers("lossless.encode_histogram", numWorkers)
 			if numWorkers > n {
 				numWorkers = n
 			}
@@ -1362,6 +1364,7 @@ func parallelComputeHistogramCost(histos []*Histogram) {
 		return
 	}
 	numWorkers := runtime.GOMAXPROCS(0)
+	numWorkers = verifhook.Workers("lossless.encode_histogram.2", numWorkers)
 	if numWorkers > n {
 		numWorkers = n
 	}
